@@ -683,7 +683,14 @@ def _gi_samples():
                 dst = GeoBox.from_bbox((ext.left + dx * w, ext.bottom, ext.right + dx * w, ext.top), crs, resolution=res)
                 yield dict(self=GeoboxTiles(dst, (30, 30)), src=GeoboxTiles(src, (16, 16)), kind=f"{crs}+{dx}")
 
-    return "28 same-CRS pairs (aligned, sub-pixel, scaled, rotated, touching, disjoint) x 2x2 tilings + 6 cross-CRS pairs (overlapping, partly, disjoint)", gen()
+        # coarse source pixels under a fine destination in another CRS, for every orientation of the source
+        # (the source footprint's pixel buffer matters most here)
+        coarse = GeoBox.from_bbox((110, -45, 155, -10), "EPSG:4326", resolution=1)
+        fine = GeoBox.from_bbox((-2_000_000, -4_900_000, 2_300_000, -1_000_000), "EPSG:3577", resolution=20_000)
+        for oname, sg in (("north_up", coarse), ("flipx", coarse.flipx()), ("flipy", coarse.flipy()), ("rot180", coarse.flipx().flipy())):
+            yield dict(self=GeoboxTiles(fine, (32, 32)), src=GeoboxTiles(sg, (5, 5)), kind=f"coarse-src-{oname}")
+
+    return "28 same-CRS pairs (aligned, sub-pixel, scaled, rotated, touching, disjoint) x 2x2 tilings + 6 cross-CRS pairs (overlapping, partly, disjoint) + 4 coarse-source / fine-destination cross-CRS pairs (source north-up, mirrored in x, in y, both)", gen()
 
 
 def _gi_post(self, src, kind, result):
